@@ -700,3 +700,454 @@ Proof.
   - apply nodup_pairs_NoDup. apply nodup_edges_rows with (fi := fi); [exact Hnd|].
     intros r Hr. destruct (He r Hr) as [E|[u [E _]]]; [now left|right; now exists u].
 Qed.
+
+(* ================= Part 7: the CSV theorems ================= *)
+Lemma in_flatten_source ts nm : In ts (flatten nm) -> exists k s, In (k, s) nm /\ In (snd ts) (sources s).
+Proof.
+  unfold flatten. intros H. apply in_flat_map in H. destruct H as [[k s] [Hin H]]. exists k, s. split; [exact Hin|].
+  unfold flatten_entry in H. cbn [fst snd] in H. destruct s as [c|cs]; cbn.
+  - destruct H as [<-|[]]. now left.
+  - apply in_map_iff in H. destruct H as [c [<- Hc]]. exact Hc.
+Qed.
+
+(* the property dict handed to validate / construct *)
+Definition csv_props (t : table) (nm : name_map) : props :=
+  combine_multi nm (del k_parent (del k_id (renamed (table_props t) nm))).
+(* the part of the import after the name map and the raw id column have been validated *)
+Definition csv_core (t : table) (ityp trk lin : bool) (nm : name_map) (nd : nat) : outcome graph :=
+  let idc0 := column t (id_col nm) in
+  let parc0 := column t (par_col nm) in
+  let m := id_mapping idc0 in
+  let idc := if ityp then idc0 else map (map_cell m) idc0 in
+  let parc := if ityp then parc0 else map (map_cell m) parc0 in
+  match ints_of idc with
+  | Some ids => match edge_tuples parc ids with
+                | Some es => finish (Some nd) trk lin ids es (csv_props t nm)
+                | None => ValueErr
+                end
+  | None => ValueErr
+  end.
+
+Lemma import_csv_wf_map t ityp trk lin nm : wf_map (t_cols t) nm = true ->
+  exists pcs, lookup k_pos nm = Some (Multi pcs) /\
+    import_csv t ityp trk lin nm = if raw_id_unique t then csv_core t ityp trk lin nm (S (length pcs)) else ValueErr.
+Proof.
+  intros Hwf. pose proof (wf_map_inv _ _ Hwf) as [Hnd [Hid [Hpar [Htime [[pcs [Hpos [Hlen Hell]]] [Hne Hsrc]]]]]].
+  destruct (clean_facts _ Hnd) as [Hk [Ht [Hmk Hkm]]].
+  exists pcs. split; [exact Hpos|].
+  unfold import_csv. destruct nm as [|kv0 nm'] eqn:Enm; [discriminate|]. rewrite <- Enm in *. clear Enm kv0 nm'.
+  unfold import_csv_body.
+  assert (Hhp : haskey k_pos nm = true) by (unfold haskey; now rewrite Hpos).
+  rewrite (preprocess_id nm Hhp Hne).
+  rewrite (wf_map_validate _ _ csv_required Hwf) by (intros k Hk'; exact Hk'). cbn [negb].
+  destruct (raw_id_unique t); cbn [negb]; [|reflexivity].
+  rewrite rename_clean; [|exact Ht|].
+  2:{ intros ts Hts. rewrite keys_table_props. destruct (in_flatten_source _ _ Hts) as [k [s [Hin Hs]]]. eapply Hsrc; eauto. }
+  assert (Hcid : In (id_col nm) (t_cols t)) by (eapply Hsrc; [eapply lookup_In; exact Hid|now left]).
+  assert (Hcpar : In (par_col nm) (t_cols t)) by (eapply Hsrc; [eapply lookup_In; exact Hpar|now left]).
+  rewrite (lookup_renamed _ nm k_id (id_col nm) Ht) by (apply in_flatten_single; eapply lookup_In; exact Hid).
+  rewrite (lookup_renamed _ nm k_parent (par_col nm) Ht) by (apply in_flatten_single; eapply lookup_In; exact Hpar).
+  unfold getd. rewrite (lookup_table_props t _ Hcid), (lookup_table_props t _ Hcpar).
+  unfold ndim_of_map. rewrite Hpos. unfold csv_core, csv_props, scol, cells_of. cbn [p_vals]. reflexivity.
+Qed.
+
+(* what the property dict of a clean, valid name map holds *)
+Lemma csv_props_spec t nm : wf_map (t_cols t) nm = true ->
+  let ps := csv_props t nm in
+  NoDup (keys ps) /\
+  (forall k c, lookup k nm = Some (Single c) -> k <> k_id -> k <> k_parent -> lookup k ps = Some (scol t c)) /\
+  (forall k c0 cs, lookup k nm = Some (Multi (c0 :: cs)) ->
+     lookup k ps = Some {| p_vals := PV (length (c0 :: cs)) (map (fun r => map (cell_of (t_cols t) r) (c0 :: cs)) (t_rows t)); p_miss := None |}) /\
+  (forall x, In x (keys ps) -> haskey x nm = true /\ x <> k_id /\ x <> k_parent).
+Proof.
+  intros Hwf ps. pose proof (wf_map_inv _ _ Hwf) as [Hnd [Hid [Hpar [Htime [[pcs [Hpos [Hlen Hell]]] [Hne Hsrc]]]]]].
+  destruct (clean_facts _ Hnd) as [Hk [Ht [Hmk Hkm]]].
+  set (df := renamed (table_props t) nm). set (ps0 := del k_parent (del k_id df)).
+  assert (P1 : NoDup (keys ps0)).
+  { unfold ps0. apply NoDup_keys_del, NoDup_keys_del. unfold df. now rewrite keys_renamed. }
+  assert (P2 : forall k c, In (k, c) (flatten nm) -> k <> k_id -> k <> k_parent -> lookup k ps0 = Some (scol t c)).
+  { intros k c Hin H1 H2. unfold ps0. rewrite !lookup_del_neq by assumption. unfold df. rewrite (lookup_renamed _ nm k c Ht Hin).
+    unfold getd. rewrite lookup_table_props; [reflexivity|]. destruct (in_flatten_source _ _ Hin) as [k' [s [Hin' Hs]]]. eapply Hsrc; eauto. }
+  assert (Hmc_ne : forall c, In c (multi_cols nm) -> c <> k_id /\ c <> k_parent).
+  { intros c Hc. split; intros ->; (eapply Hkm; [|exact Hc]); eapply lookup_Some_keys; eauto. }
+  assert (Hsrc0 : forall k cs c, In (k, Multi cs) nm -> In c cs -> In c (keys ps0)).
+  { intros k cs c Hin Hc. destruct (Hmc_ne c (in_multi_cols _ _ _ _ Hin Hc)) as [H1 H2].
+    eapply lookup_Some_keys. apply P2; [eapply in_flatten_multi; eauto|exact H1|exact H2]. }
+  assert (L : forall x, lookup x ps = final_spec ps0 nm x) by (intros x; apply combine_multi_lookup; assumption).
+  assert (Hkeymc : forall x, In x (keys nm) -> memz x (multi_cols nm) = false) by (intros x Hx; apply memz_false; now apply Hkm).
+  split; [apply combine_multi_nodup; exact P1|]. split; [|split].
+  - intros k c Hl H1 H2. rewrite L. unfold final_spec. rewrite Hl, (Hkeymc k (lookup_Some_keys _ _ _ Hl)).
+    apply P2; [apply in_flatten_single; eapply lookup_In; eauto|exact H1|exact H2].
+  - intros k c0 cs Hl. rewrite L. unfold final_spec. rewrite Hl. f_equal. apply comb_of_cols. intros c Hc.
+    pose proof (lookup_In _ _ _ Hl) as Hin. destruct (Hmc_ne c (in_multi_cols _ _ _ _ Hin Hc)) as [H1 H2].
+    apply P2; [eapply in_flatten_multi; eauto|exact H1|exact H2].
+  - intros x Hx.
+    assert (Hdel : forall k, (k = k_id \/ k = k_parent) -> In k (keys nm) -> lookup k ps = None).
+    { intros k Hk' Hkn. rewrite L. unfold final_spec.
+      assert (El : exists c, lookup k nm = Some (Single c)) by (destruct Hk' as [->| ->]; eauto).
+      destruct El as [c El]. rewrite El, (Hkeymc k Hkn). unfold ps0.
+      destruct Hk' as [->| ->]; [|apply lookup_del_eq]. rewrite lookup_del_neq by discriminate. apply lookup_del_eq. }
+    assert (Hx' : lookup x ps <> None) by (intros E; apply lookup_None_keys in E; contradiction).
+    apply combine_multi_keys in Hx. destruct Hx as [Hx|Hx].
+    + unfold ps0 in Hx. apply in_keys_del in Hx. destruct Hx as [H2 Hx]. apply in_keys_del in Hx. destruct Hx as [H1 Hx].
+      unfold df in Hx. rewrite keys_renamed in Hx. destruct (in_targets_inv _ _ Hx) as [[c Hc]|Hm].
+      * split; [|split; assumption]. apply haskey_keys. unfold keys. apply in_map_iff. now exists (x, Single c).
+      * exfalso. apply Hx'. rewrite L. unfold final_spec.
+        assert (El : lookup x nm = None) by (apply lookup_None_keys; intros Hi; exact (Hkm x Hi Hm)).
+        rewrite El. apply memz_In in Hm. now rewrite Hm.
+    + split; [now apply haskey_keys|]. split; intros ->; apply Hx'; apply Hdel; auto.
+Qed.
+
+Lemma csv_props_spatial t nm pcs : wf_map (t_cols t) nm = true -> lookup k_pos nm = Some (Multi pcs) ->
+  spatial_props_ok (Some (S (length pcs))) (csv_props t nm) = true.
+Proof.
+  intros Hwf Hpos. destruct (csv_props_spec t nm Hwf) as [Hnd [HS [HM HK]]].
+  pose proof (wf_map_inv _ _ Hwf) as [_ [_ [_ [_ [[pcs' [Hpos' [Hlen Hell]]] [Hne _]]]]]].
+  rewrite Hpos in Hpos'. injection Hpos' as <-.
+  unfold spatial_props_ok. apply forallb_forall. intros [x p] Hin. cbn [fst snd]. rewrite memz_sd.
+  replace (S (length pcs) - 1)%nat with (length pcs) by lia.
+  pose proof (In_lookup _ _ _ Hnd Hin) as Hl.
+  destruct (Z.eqb_spec x k_pos) as [->|Hn1]; cbn [orb].
+  - destruct pcs as [|c0 cs]; [cbn in Hlen; lia|]. rewrite (HM _ _ _ Hpos) in Hl. injection Hl as <-. cbn [p_vals width_of]. apply Nat.eqb_refl.
+  - destruct (Z.eqb_spec x k_ell) as [->|Hn2]; [|reflexivity].
+    destruct (HK k_ell (lookup_Some_keys _ _ _ Hl)) as [Hh _]. unfold haskey in Hh.
+    destruct (lookup k_ell nm) as [s|] eqn:El; [|discriminate]. destruct (Hell s eq_refl) as [cs [-> Hl2]].
+    destruct cs as [|c0 cs]; [rewrite <- Hl2 in Hlen; cbn in Hlen; lia|].
+    rewrite (HM _ _ _ El) in Hl. injection Hl as <-. cbn [p_vals width_of]. now apply Nat.eqb_eq.
+Qed.
+
+Lemma wf_table_inv t ityp nm : wf_table t ityp nm = true ->
+  let ids := column t (id_col nm) in
+  raw_id_unique t = true /\ NoDup ids /\ ~ In CNone ids /\ ~ In (CInt (-1)) ids /\
+  (ityp = true -> forall c, In c ids -> is_int c = true) /\
+  (forall r, In r (t_rows t) -> let p := cell_of (t_cols t) r (par_col nm) in
+     is_none p = true \/ (In p ids /\ p <> cell_of (t_cols t) r (id_col nm))).
+Proof.
+  unfold wf_table. rewrite !andb_true_iff. intros [[[[[[[_ _] H3] H4] H5] H6] H7] H8]. cbn zeta.
+  split; [exact H3|]. split; [now apply nodup_cells_NoDup|]. split; [apply memc_false; now apply negb_true_iff|].
+  split; [apply memc_false; now apply negb_true_iff|]. split.
+  - intros -> c Hc. cbn in H7. rewrite forallb_forall in H7. now apply H7.
+  - intros r Hr. rewrite forallb_forall in H8. specialize (H8 r Hr). cbn zeta in H8. apply orb_true_iff in H8.
+    destruct H8 as [H8|H8]; [now left|right]. apply andb_true_iff in H8. destruct H8 as [Ha Hb]. split; [now apply memc_In|].
+    intros E. rewrite <- E, cell_eqb_refl in Hb. discriminate.
+Qed.
+
+Lemma is_none_cases p : is_none p = true -> p = CNone \/ p = CInt (-1).
+Proof. destruct p as [z| | |]; cbn; try discriminate; [|now left]. intros H. apply Z.eqb_eq in H. right. now subst. Qed.
+
+(* the edges that the property asks for *)
+Definition row_edge (t : table) (ityp : bool) (nm : name_map) (r : list cell) : list (Z * Z) :=
+  let p := cell_of (t_cols t) r (par_col nm) in
+  if is_none p then [] else [(renum t ityp nm p, renum t ityp nm (cell_of (t_cols t) r (id_col nm)))].
+
+Lemma csv_core_wf t ityp trk lin nm nd : wf_table t ityp nm = true ->
+  spatial_props_ok (Some nd) (csv_props t nm) = true ->
+  csv_core t ityp trk lin nm nd =
+    Ok (construct (map (fun r => renum t ityp nm (cell_of (t_cols t) r (id_col nm))) (t_rows t))
+                  (flat_map (row_edge t ityp nm) (t_rows t))
+                  (drop_invalid trk lin (csv_props t nm))).
+Proof.
+  intros Hwt Hsp. destruct (wf_table_inv _ _ _ Hwt) as [_ [Hnd [Hnone [Hm1 [Hint Hpar]]]]].
+  set (cols := t_cols t) in *. set (cid := id_col nm) in *. set (cpar := par_col nm) in *.
+  set (ids0 := column t cid) in *. set (m := id_mapping ids0).
+  assert (Hin_ids : forall r, In r (t_rows t) -> In (cell_of cols r cid) ids0).
+  { intros r Hr. unfold ids0, column. apply in_map_iff. now exists r. }
+  assert (Hren_id : forall c, In c ids0 -> (if ityp then c else map_cell m c) = CInt (renum t ityp nm c)).
+  { intros c Hc. unfold renum. fold cid ids0 m. destruct ityp eqn:Ei.
+    - specialize (Hint eq_refl c Hc). destruct c; try discriminate. reflexivity.
+    - unfold map_cell. destruct (id_mapping_In _ _ Hc) as [k [Ek _]]. fold m in Ek. now rewrite Ek. }
+  unfold csv_core. fold cid cpar ids0 m.
+  assert (E1 : ints_of (if ityp then ids0 else map (map_cell m) ids0)
+               = Some (map (fun r => renum t ityp nm (cell_of cols r cid)) (t_rows t))).
+  { replace (if ityp then ids0 else map (map_cell m) ids0)
+      with (map (fun r => if ityp then cell_of cols r cid else map_cell m (cell_of cols r cid)) (t_rows t)).
+    - apply ints_of_map. intros r Hr. now apply Hren_id, Hin_ids.
+    - unfold ids0, column. fold cols. destruct ityp; [reflexivity|now rewrite map_map]. }
+  rewrite E1.
+  assert (E2 : edge_tuples (if ityp then column t cpar else map (map_cell m) (column t cpar))
+                 (map (fun r => renum t ityp nm (cell_of cols r cid)) (t_rows t))
+               = Some (flat_map (row_edge t ityp nm) (t_rows t))).
+  { replace (if ityp then column t cpar else map (map_cell m) (column t cpar))
+      with (map (fun r => if ityp then cell_of cols r cpar else map_cell m (cell_of cols r cpar)) (t_rows t))
+      by (unfold column; fold cols; destruct ityp; [reflexivity|now rewrite map_map]).
+    apply edge_tuples_map. intros r Hr. unfold row_edge. fold cols cpar cid.
+    destruct (Hpar r Hr) as [Hn|[Hp Hne]].
+    - rewrite Hn. destruct (is_none_cases _ Hn) as [E|E]; rewrite E.
+      + left. split; [|reflexivity]. destruct ityp; [reflexivity|]. unfold map_cell, m. now rewrite (id_mapping_notin _ _ Hnone).
+      + destruct ityp.
+        * right. exists (-1). split; [reflexivity|]. left. now split.
+        * left. split; [|reflexivity]. unfold map_cell, m. now rewrite (id_mapping_notin _ _ Hm1).
+    - assert (Hnn : is_none (cell_of cols r cpar) = false).
+      { destruct (is_none (cell_of cols r cpar)) eqn:E; [|reflexivity]. exfalso.
+        destruct (is_none_cases _ E) as [E'|E']; rewrite E' in Hp; contradiction. }
+      rewrite Hnn. right. exists (renum t ityp nm (cell_of cols r cpar)). split; [now apply Hren_id|]. right. split; [|reflexivity].
+      unfold renum. fold cid ids0 m. destruct ityp eqn:Ei.
+      + specialize (Hint eq_refl _ Hp). destruct (cell_of cols r cpar) as [z| | |] eqn:Ec; try discriminate. cbn.
+        intros ->. now apply Hm1.
+      + destruct (id_mapping_In _ _ Hp) as [k [Ek Hk]]. fold m in Ek. rewrite Ek. lia. }
+  rewrite E2. unfold finish. rewrite Hsp. cbn [negb].
+  rewrite structure_ok_rows; [reflexivity| |].
+  - replace (map (fun r => renum t ityp nm (cell_of cols r cid)) (t_rows t)) with (map (renum t ityp nm) ids0)
+      by (unfold ids0, column; now rewrite map_map).
+    apply NoDup_map_inj_in; [|exact Hnd]. intros a b Ha Hb. apply renum_inj; [|exact Ha|exact Hb].
+    intros Ei. split; now apply Hint.
+  - intros r Hr. unfold row_edge. fold cols cpar cid.
+    destruct (is_none (cell_of cols r cpar)) eqn:En; [now left|right].
+    destruct (Hpar r Hr) as [Hn|[Hp Hne]]; [congruence|].
+    eexists. split; [reflexivity|]. split.
+    + intros E. apply Hne. eapply renum_inj; [|exact Hp|now apply Hin_ids|exact E].
+      intros Ei. split; apply Hint; auto.
+    + unfold ids0, column in Hp. apply in_map_iff in Hp. destruct Hp as [r' [E Hr']]. apply in_map_iff. exists r'. split; [|exact Hr'].
+      fold cols in E. now rewrite E.
+Qed.
+
+(* ---- (1) nodes and edges, (4) the renumbering ---- *)
+Theorem csv_nodes_edges : forall t ityp trk lin nm,
+  wf_map (t_cols t) nm = true -> wf_table t ityp nm = true ->
+  exists g, import_csv t ityp trk lin nm = Ok g /\
+    map fst (g_nodes g) = map (fun r => renum t ityp nm (cell_of (t_cols t) r (id_col nm))) (t_rows t) /\
+    g_edges g = flat_map (row_edge t ityp nm) (t_rows t).
+Proof.
+  intros t ityp trk lin nm Hwm Hwt. destruct (import_csv_wf_map t ityp trk lin nm Hwm) as [pcs [Hpos E]].
+  destruct (wf_table_inv _ _ _ Hwt) as [Hraw _]. rewrite Hraw in E.
+  rewrite (csv_core_wf t ityp trk lin nm _ Hwt (csv_props_spatial t nm pcs Hwm Hpos)) in E.
+  eexists. split; [exact E|]. cbn [g_nodes g_edges construct]. split; [apply construct_nodes_fst|reflexivity].
+Qed.
+
+Theorem csv_edges_iff : forall t ityp trk lin nm g,
+  wf_map (t_cols t) nm = true -> wf_table t ityp nm = true -> import_csv t ityp trk lin nm = Ok g ->
+  forall u v, In (u, v) (g_edges g) <->
+    exists r, In r (t_rows t) /\ is_none (cell_of (t_cols t) r (par_col nm)) = false /\
+              u = renum t ityp nm (cell_of (t_cols t) r (par_col nm)) /\
+              v = renum t ityp nm (cell_of (t_cols t) r (id_col nm)).
+Proof.
+  intros t ityp trk lin nm g Hwm Hwt Hg u v. destruct (csv_nodes_edges t ityp trk lin nm Hwm Hwt) as [g' [Hg' [_ He]]].
+  rewrite Hg in Hg'. injection Hg' as <-. rewrite He, in_flat_map. unfold row_edge. split.
+  - intros [r [Hr Hin]]. exists r. destruct (is_none _); [destruct Hin|]. destruct Hin as [Hin|[]]. injection Hin as <- <-. auto.
+  - intros [r [Hr [Hn [-> ->]]]]. exists r. split; [exact Hr|]. rewrite Hn. now left.
+Qed.
+
+Theorem renumber_injective : forall t ityp nm, wf_table t ityp nm = true ->
+  (forall a b, In a (column t (id_col nm)) -> In b (column t (id_col nm)) -> renum t ityp nm a = renum t ityp nm b -> a = b) /\
+  (ityp = true -> forall z, renum t ityp nm (CInt z) = z).
+Proof.
+  intros t ityp nm Hwt. destruct (wf_table_inv _ _ _ Hwt) as [_ [_ [_ [_ [Hint _]]]]]. split.
+  - intros a b Ha Hb. apply renum_inj; [|exact Ha|exact Hb]. intros Ei. split; now apply Hint.
+  - intros -> z. reflexivity.
+Qed.
+
+(* ---- (2) values ---- *)
+Theorem csv_values : forall t ityp trk lin nm g,
+  wf_map (t_cols t) nm = true -> wf_table t ityp nm = true -> import_csv t ityp trk lin nm = Ok g ->
+  forall i r, nth_error (t_rows t) i = Some r ->
+  exists attrs, nth_error (g_nodes g) i = Some (renum t ityp nm (cell_of (t_cols t) r (id_col nm)), attrs) /\
+    (forall k c, lookup k nm = Some (Single c) -> k <> k_id -> k <> k_parent ->
+       (k = k_track -> trk = true) -> (k = k_lineage -> lin = true) ->
+       lookup k attrs = Some (VCell (cell_of (t_cols t) r c))) /\
+    (forall k cs, lookup k nm = Some (Multi cs) ->
+       (k = k_track -> trk = true) -> (k = k_lineage -> lin = true) ->
+       lookup k attrs = Some (VList (map (cell_of (t_cols t) r) cs))) /\
+    (forall k, In k (keys attrs) -> haskey k nm = true /\ k <> k_id /\ k <> k_parent).
+Proof.
+  intros t ityp trk lin nm g Hwm Hwt Hg i r Hi. destruct (import_csv_wf_map t ityp trk lin nm Hwm) as [pcs [Hpos E]].
+  destruct (wf_table_inv _ _ _ Hwt) as [Hraw _]. rewrite Hraw in E.
+  rewrite (csv_core_wf t ityp trk lin nm _ Hwt (csv_props_spatial t nm pcs Hwm Hpos)) in E.
+  rewrite Hg in E. injection E as ->. cbn [g_nodes construct].
+  destruct (csv_props_spec t nm Hwm) as [Hnd [HS [HM HK]]].
+  set (ps := drop_invalid trk lin (csv_props t nm)).
+  assert (Hndp : NoDup (keys ps)) by (now apply drop_invalid_nodup).
+  eexists. split.
+  - erewrite construct_nodes_nth; [reflexivity|].
+    now apply (map_nth_error (fun r0 => renum t ityp nm (cell_of (t_cols t) r0 (id_col nm)))).
+  - cbn [Nat.add]. split; [|split].
+    + intros k c Hl H1 H2 H3 H4. rewrite lookup_node_attrs by exact Hndp. unfold ps.
+      rewrite drop_invalid_lookup by assumption. rewrite (HS k c Hl H1 H2). now apply value_at_scol.
+    + intros k cs Hl H3 H4. rewrite lookup_node_attrs by exact Hndp. unfold ps. rewrite drop_invalid_lookup by assumption.
+      destruct cs as [|c0 cs].
+      * exfalso. pose proof (wf_map_inv _ _ Hwm) as [_ [_ [_ [_ [_ [Hne _]]]]]]. rewrite forallb_forall in Hne.
+        specialize (Hne _ (lookup_In _ _ _ Hl)). discriminate.
+      * rewrite (HM k c0 cs Hl). now apply value_at_stacked.
+    + intros k Hk. apply node_attrs_keys in Hk. unfold ps in Hk. apply drop_invalid_keys in Hk. now apply HK.
+Qed.
+
+(* ---- (3) rejection ---- *)
+Lemma forallb_false_intro {A} (f : A -> bool) l x : In x l -> f x = false -> forallb f l = false.
+Proof.
+  intros Hin Hf. destruct (forallb f l) eqn:E; [|reflexivity]. rewrite forallb_forall in E. rewrite (E x Hin) in Hf. discriminate.
+Qed.
+
+Lemma finish_cases nd trk lin ids es ps :
+  (structure_ok ids es = true /\ exists g, finish nd trk lin ids es ps = Ok g) \/ finish nd trk lin ids es ps = ValueErr.
+Proof.
+  unfold finish. destruct (spatial_props_ok nd ps); cbn [negb]; [|now right].
+  destruct (structure_ok ids es); cbn [negb]; [left; split; [reflexivity|eauto]|now right].
+Qed.
+
+Lemma ints_of_zof l zs : ints_of l = Some zs -> zs = map zof l.
+Proof. intros H. apply ints_of_Some in H. subst l. rewrite map_map. cbn. symmetry. apply map_id. Qed.
+
+Lemma edge_tuples_In ps : forall ids es, edge_tuples ps ids = Some es ->
+  forall z i, In (CInt z, i) (List.combine ps ids) -> z <> -1 -> In (z, i) es.
+Proof.
+  induction ps as [|p ps IH]; intros ids es H z i Hin Hz; [destruct Hin|].
+  destruct ids as [|i0 ids]; [destruct Hin|]. cbn [List.combine] in Hin. cbn [edge_tuples] in H.
+  destruct Hin as [Hin|Hin].
+  - injection Hin as -> ->. destruct (Z.eqb_spec z (-1)); [contradiction|].
+    destruct (edge_tuples ps ids); [|discriminate]. injection H as <-. now left.
+  - destruct p as [z'| | |]; try discriminate.
+    + destruct (z' =? -1); [eapply IH; eauto|]. destruct (edge_tuples ps ids) as [es'|] eqn:E; [|discriminate].
+      injection H as <-. right. eapply IH; eauto.
+    + eapply IH; eauto.
+Qed.
+
+Lemma in_combine_map {A B C} (f : A -> B) (g : A -> C) l r : In r l -> In (f r, g r) (List.combine (map f l) (map g l)).
+Proof. induction l as [|x l IH]; intros H; [destruct H|]. cbn. destruct H as [->|H]; [now left|right; now apply IH]. Qed.
+
+(* under a valid clean name map the outcome is a graph or ValueError, and a graph passes the structural validation *)
+Lemma import_csv_outcome t ityp trk lin nm : wf_map (t_cols t) nm = true ->
+  import_csv t ityp trk lin nm = ValueErr \/
+  exists g ids es,
+    import_csv t ityp trk lin nm = Ok g /\ raw_id_unique t = true /\
+    ints_of (if ityp then column t (id_col nm) else map (map_cell (id_mapping (column t (id_col nm)))) (column t (id_col nm))) = Some ids /\
+    edge_tuples (if ityp then column t (par_col nm) else map (map_cell (id_mapping (column t (id_col nm)))) (column t (par_col nm))) ids = Some es /\
+    structure_ok ids es = true.
+Proof.
+  intros Hwm. destruct (import_csv_wf_map t ityp trk lin nm Hwm) as [pcs [_ E]]. rewrite E.
+  destruct (raw_id_unique t); [|now left]. unfold csv_core.
+  destruct (ints_of _) as [ids|] eqn:E1; [|now left]. destruct (edge_tuples _ ids) as [es|] eqn:E2; [|now left].
+  destruct (finish_cases (Some (S (length pcs))) trk lin ids es (csv_props t nm)) as [[Hs [g Hg]]|Hv]; [|now left].
+  right. exists g, ids, es. auto.
+Qed.
+
+(* (3a) two rows with the same id *)
+Theorem csv_reject_duplicate_id : forall t ityp trk lin nm,
+  wf_map (t_cols t) nm = true -> nodup_cells (column t (id_col nm)) = false ->
+  import_csv t ityp trk lin nm = ValueErr.
+Proof.
+  intros t ityp trk lin nm Hwm Hdup. destruct (import_csv_outcome t ityp trk lin nm Hwm) as [E|[g [ids [es [_ [_ [E1 [_ Hs]]]]]]]]; [exact E|].
+  exfalso. unfold structure_ok in Hs. rewrite !andb_true_iff in Hs. destruct Hs as [[[Hn _] _] _]. apply nodup_z_NoDup in Hn.
+  assert (Hnd : NoDup (column t (id_col nm))).
+  { apply ints_of_Some in E1. assert (Hc : NoDup (map CInt ids)) by (apply NoDup_map_inj_in; [intros a b _ _ Hab; congruence|exact Hn]).
+    rewrite <- E1 in Hc. destruct ityp; [exact Hc|]. eapply NoDup_map_inv; eauto. }
+  apply nodup_cells_NoDup in Hnd. congruence.
+Qed.
+
+(* (3b) a parent that is not an id - integer-typed ids only (see C12_unknown_parent_accepted_when_renumbered) *)
+Theorem csv_reject_unknown_parent : forall t trk lin nm r z,
+  wf_map (t_cols t) nm = true -> In r (t_rows t) ->
+  cell_of (t_cols t) r (par_col nm) = CInt z -> z <> -1 -> ~ In (CInt z) (column t (id_col nm)) ->
+  import_csv t true trk lin nm = ValueErr.
+Proof.
+  intros t trk lin nm r z Hwm Hr Hp Hz Hni.
+  destruct (import_csv_outcome t true trk lin nm Hwm) as [E|[g [ids [es [_ [_ [E1 [E2 Hs]]]]]]]]; [exact E|].
+  exfalso. cbn iota in E1, E2. pose proof (ints_of_zof _ _ E1) as Hids. pose proof (ints_of_Some _ _ E1) as Hcol.
+  unfold column in Hids at 1. rewrite map_map in Hids.
+  assert (Hin : In (z, zof (cell_of (t_cols t) r (id_col nm))) es).
+  { eapply edge_tuples_In; [exact E2| |exact Hz]. rewrite Hids. unfold column. rewrite <- Hp.
+    apply (in_combine_map (fun r => cell_of (t_cols t) r (par_col nm)) (fun r => zof (cell_of (t_cols t) r (id_col nm)))). exact Hr. }
+  unfold structure_ok in Hs. rewrite !andb_true_iff in Hs. destruct Hs as [[[_ Hk] _] _].
+  unfold edges_known in Hk. rewrite forallb_forall in Hk. specialize (Hk _ Hin). cbn [fst snd] in Hk.
+  apply andb_true_iff in Hk. destruct Hk as [Hk _]. apply memz_In in Hk. apply Hni. rewrite Hcol. now apply in_map.
+Qed.
+
+(* (3c) a row that is its own parent *)
+Theorem csv_reject_self_parent : forall t ityp trk lin nm r,
+  wf_map (t_cols t) nm = true -> In r (t_rows t) ->
+  cell_of (t_cols t) r (par_col nm) = cell_of (t_cols t) r (id_col nm) ->
+  (ityp = true -> is_none (cell_of (t_cols t) r (par_col nm)) = false) ->
+  import_csv t ityp trk lin nm = ValueErr.
+Proof.
+  intros t ityp trk lin nm r Hwm Hr Heq Hnn.
+  destruct (import_csv_outcome t ityp trk lin nm Hwm) as [E|[g [ids [es [_ [_ [E1 [E2 Hs]]]]]]]]; [exact E|].
+  exfalso. set (cols := t_cols t) in *. set (cid := id_col nm) in *. set (cpar := par_col nm) in *.
+  set (m := id_mapping (column t cid)) in *.
+  set (fc := fun r0 : list cell => if ityp then cell_of cols r0 cid else map_cell m (cell_of cols r0 cid)).
+  set (fp := fun r0 : list cell => if ityp then cell_of cols r0 cpar else map_cell m (cell_of cols r0 cpar)).
+  assert (Eidc : (if ityp then column t cid else map (map_cell m) (column t cid)) = map fc (t_rows t)).
+  { unfold fc, column. fold cols. destruct ityp; [reflexivity|now rewrite map_map]. }
+  assert (Eparc : (if ityp then column t cpar else map (map_cell m) (column t cpar)) = map fp (t_rows t)).
+  { unfold fp, column. fold cols. destruct ityp; [reflexivity|now rewrite map_map]. }
+  rewrite Eidc in E1. rewrite Eparc in E2.
+  pose proof (ints_of_zof _ _ E1) as Hids. rewrite map_map in Hids. pose proof (ints_of_Some _ _ E1) as Hcol.
+  assert (Hfr : fc r = CInt (zof (fc r))).
+  { assert (In (fc r) (map CInt ids)) as Hi by (rewrite <- Hcol; now apply in_map).
+    apply in_map_iff in Hi. destruct Hi as [z [<- _]]. reflexivity. }
+  assert (Hpr : fp r = fc r) by (unfold fp, fc; now rewrite Heq).
+  assert (Hz : zof (fc r) <> -1).
+  { unfold fc in *. destruct ityp.
+    - specialize (Hnn eq_refl). rewrite Heq in Hnn. rewrite Hfr in Hnn. cbn in Hnn. now apply Z.eqb_neq.
+    - unfold map_cell in *. assert (Hi : In (cell_of cols r cid) (column t cid)) by (unfold column; apply in_map_iff; now exists r).
+      destruct (id_mapping_In _ _ Hi) as [k [Ek Hk]]. fold m in Ek. rewrite Ek. cbn. lia. }
+  assert (Hin : In (zof (fc r), zof (fc r)) es).
+  { eapply edge_tuples_In; [exact E2| |exact Hz]. rewrite Hids, <- Hfr. rewrite <- Hpr at 1.
+    apply (in_combine_map fp (fun r0 => zof (fc r0))). exact Hr. }
+  unfold structure_ok in Hs. rewrite !andb_true_iff in Hs. destruct Hs as [[_ Hself] _].
+  unfold no_self_edges in Hself. rewrite forallb_forall in Hself. specialize (Hself _ Hin). cbn [fst snd] in Hself.
+  now rewrite Z.eqb_refl in Hself.
+Qed.
+
+(* (3d, 3e) malformed name maps: generic in the required keys and the available columns *)
+Lemma legacy_step_None k st c : lookup k (fst st) = None -> lookup k (fst (legacy_step st c)) = None.
+Proof.
+  intros H. unfold legacy_step. destruct (lookup c (fst st)) as [[c'|cs]|] eqn:E; cbn [fst]; [| |exact H];
+    (destruct (Z.eq_dec k c) as [->|Hn]; [apply lookup_del_eq|now rewrite lookup_del_neq]).
+Qed.
+Lemma legacy_fold_None k l : forall st, lookup k (fst st) = None -> lookup k (fst (fold_left legacy_step l st)) = None.
+Proof.
+  induction l as [|c l IH]; intros st H; [exact H|]. cbn [fold_left]. apply IH. now apply legacy_step_None.
+Qed.
+Lemma lookup_preprocess_None k nm : k <> k_pos -> lookup k nm = None -> lookup k (preprocess nm) = None.
+Proof.
+  intros Hk H. unfold preprocess. apply lookup_filter_None. unfold legacy_pos. destruct (haskey k_pos nm); [exact H|].
+  set (st := fold_left legacy_step [k_z; k_y; k_x] (nm, [])).
+  assert (E : lookup k (fst st) = None) by (apply legacy_fold_None; exact H).
+  destruct (2 <=? length (snd st))%nat; [|exact E]. now rewrite lookup_set_neq.
+Qed.
+
+Lemma validate_required_missing req cols nd nm k : In k req -> k <> k_pos -> lookup k nm = None ->
+  validate_name_map req cols nd (preprocess nm) = false.
+Proof.
+  intros Hin Hk H. unfold validate_name_map. assert (E : required_ok req (preprocess nm) = false).
+  { unfold required_ok. eapply forallb_false_intro; [exact Hin|]. unfold haskey. now rewrite lookup_preprocess_None. }
+  now rewrite E.
+Qed.
+Lemma validate_pos_missing req cols nd nm :
+  lookup k_pos nm = None -> lookup k_z nm = None -> lookup k_y nm = None -> lookup k_x nm = None ->
+  validate_name_map req cols nd (preprocess nm) = false.
+Proof.
+  intros Hp Hz Hy Hx. unfold validate_name_map. assert (E : pos_ok (preprocess nm) = false).
+  { unfold pos_ok, preprocess, legacy_pos, haskey. rewrite Hp. cbn [fold_left]. unfold legacy_step. cbn [fst snd].
+    rewrite Hz. cbn [fst snd]. rewrite Hy. cbn [fst snd]. rewrite Hx. cbn [fst snd length Nat.leb].
+    now rewrite (lookup_filter_None _ _ _ Hp). }
+  rewrite E. now rewrite andb_false_r.
+Qed.
+Lemma validate_missing_column req cols nd nm k s c : haskey k_pos nm = true -> In (k, s) nm -> In c (sources s) ->
+  cols <> [] -> ~ In c cols -> validate_name_map req cols nd (preprocess nm) = false.
+Proof.
+  intros Hp Hin Hc Hcols Hni. unfold validate_name_map. assert (E : sources_ok cols (preprocess nm) = false).
+  { unfold sources_ok. destruct cols as [|c0 cols']; [congruence|]. unfold preprocess, legacy_pos. rewrite Hp.
+    apply forallb_false_intro with (x := (k, s)).
+    - apply filter_In. split; [exact Hin|]. unfold nonempty_src. cbn [snd]. destruct s as [c'|[|c' cs]]; try reflexivity. destruct Hc.
+    - cbn [snd]. eapply forallb_false_intro; [exact Hc|]. now apply memz_false. }
+  rewrite E. now rewrite andb_false_r.
+Qed.
+
+Lemma import_csv_invalid_map t ityp trk lin nm :
+  validate_name_map csv_required (t_cols t) (ndim_of_map nm) (preprocess nm) = false ->
+  import_csv t ityp trk lin nm = ValueErr.
+Proof. intros H. unfold import_csv. destruct nm; [reflexivity|]. unfold import_csv_body. now rewrite H. Qed.
+
+Theorem csv_reject_unmapped_required : forall t ityp trk lin nm k,
+  In k [k_time; k_id; k_parent] -> lookup k nm = None -> import_csv t ityp trk lin nm = ValueErr.
+Proof.
+  intros t ityp trk lin nm k Hk H. apply import_csv_invalid_map. apply validate_required_missing with (k := k); [exact Hk| |exact H].
+  cbn in Hk. destruct Hk as [<-|[<-|[<-|[]]]]; discriminate.
+Qed.
+Theorem csv_reject_unmapped_pos : forall t ityp trk lin nm,
+  lookup k_pos nm = None -> lookup k_z nm = None -> lookup k_y nm = None -> lookup k_x nm = None ->
+  import_csv t ityp trk lin nm = ValueErr.
+Proof. intros. apply import_csv_invalid_map. now apply validate_pos_missing. Qed.
+Theorem csv_reject_missing_column : forall t ityp trk lin nm k s c,
+  haskey k_pos nm = true -> In (k, s) nm -> In c (sources s) -> t_cols t <> [] -> ~ In c (t_cols t) ->
+  import_csv t ityp trk lin nm = ValueErr.
+Proof. intros. apply import_csv_invalid_map. eapply validate_missing_column; eauto. Qed.
